@@ -255,16 +255,6 @@ def check_threshold_dim_name(ctx, P, c, desc):
     if ok:
         return
     d = dict(desc, threshold_dim=name)
-    # the recorded deviation: the observed event keeps its own dimension 'threshold', so the result is the outer product over
-    # (thr, threshold); its diagonal is the specified score
-    if impl[0] == "ok" and not core.is_err(m) and "threshold" in impl[1].dims and name in impl[1].dims:
-        diag = xr.concat([impl[1].isel({name: k, "threshold": k}, drop=True) for k in range(len(c["ts"]))], dim=name)
-        diag = diag.assign_coords({name: c["ts"]})
-        ok2, _ = core.compare_result(("ok", diag), m)
-        if ok2:
-            ctx.violation("threshold_dim other than 'threshold' yields an extra 'threshold' dimension (outer product of forecast and observed thresholds)",
-                          d, "dims " + str(core.dec_arr(m)[0]), "dims " + str(list(impl[1].dims)), finding_key="brier-ens-threshold-dim-name")
-            return
     ctx.violation("brier_score_for_ensemble with a custom threshold_dim differs from the specification: " + why, d, str(m)[:300], str(impl[1])[:300])
 
 
@@ -344,7 +334,25 @@ def poke(rng, da, v):
     return da
 
 
+def corpus(ctx):
+    """deterministic repro of the defect repaired in /repo by 528852a (known_findings.d/C13.json, status fixed)"""
+    P, _ = S()
+    f = xr.DataArray([[1.0, 2, 3], [2, 3, 4]], dims=["t", "ens"])
+    o = xr.DataArray([2.0, 3.0], dims=["t"])
+    ref = core.call_impl(P.brier_score_for_ensemble, f, o, "ens", [2.0, 3.0], preserve_dims="all")
+    got = core.call_impl(P.brier_score_for_ensemble, f, o, "ens", [2.0, 3.0], threshold_dim="thr", preserve_dims="all")
+    ctx.case(("corpus", "brier-ens-threshold-dim-name"))
+    ok = ref[0] == "ok" and got[0] == "ok" and set(got[1].dims) == {"t", "thr"} and \
+        np.allclose(got[1].transpose("t", "thr").values, ref[1].transpose("t", "threshold").values, equal_nan=True)
+    if not ok:
+        ctx.violation("brier_score_for_ensemble(threshold_dim='thr') must return the same scores under the requested dimension name (regression of 528852a)",
+                      {"fcst": [[1, 2, 3], [2, 3, 4]], "obs": [2, 3], "event_thresholds": [2.0, 3.0], "threshold_dim": "thr"},
+                      "dims ('t','thr')", "dims " + str(getattr(got[1], "dims", got[1])))
+    ctx.count("corpus_cases", 1)
+
+
 def run(ctx):
+    corpus(ctx)
     cell_grid(ctx)
     full_ens(ctx)
     full_brier(ctx)
